@@ -525,3 +525,105 @@ Qed.
 Example ex2_get_model_obs_accepted :
   get_clauses [L [L [A 1; A 6; A 1]]; L [L [A 1; A 5; A 0]]]%Z 5 (L [A 0; L [A 1; A 5; A 0]])%Z = [].
 Proof. vm_compute. reflexivity. Qed.
+
+(** ---- non-vacuity of [model_tree]: a three-level observation tree over the same two-life history.
+    Life 0 runs op list ((1 5 0)) and crashes (experiment 0), life 1 is probed for keys 0..6 — key 5 is
+    served with (1 5 0), everything else misses —, runs ((1 6 1)), is read back (final: keys 5 and 6
+    served) and crashes; life 2 is probed: key 5 still served, key 6 lost (its record does not resolve,
+    [ex2_new_record_not_yet]).  The tree is a model tree, so the monitor is silent on it — and
+    [vm_compute] of the monitor agrees. ---- *)
+Definition ex_miss (k : Z) : sx := L [L [A 0; L [A k]]; L [A 5]]%Z.
+Definition ex_hit5 : sx := L [L [A 0; L []]; L [A 0; L [A 1; A 5; A 0]]]%Z.
+Definition ex_probe : sx := L [ex_miss 0; ex_miss 1; ex_miss 2; ex_miss 3; ex_miss 4; ex_hit5; ex_miss 6]%Z.
+Definition ex_gen2 : sx := L [L []; L []].
+Definition ex_gen1 : sx := L [L [L [A 1; A 6; A 1]]; L [L [A 0; A 0; L []; L []; A 0; A 0; ex_gen2]]]%Z.
+Definition ex_gen0 : sx := L [L [L [A 1; A 5; A 0]]; L [L [A 0; A 0; L []; L []; A 9; A 0; ex_gen1]]]%Z.
+Definition ex_obs2 : sx := L [L []; L []; ex_probe; L []; L []; L []; L []; L []].
+Definition ex_final1 : sx :=
+  L [L [A 5]; L [A 5]; L [A 5]; L [A 5]; L [A 5]; L [A 0; L [A 1; A 5; A 0]]; L [A 0; L [A 1; A 6; A 1]]]%Z.
+Definition ex_obs1 : sx :=
+  L [L []; L []; ex_probe; L [L [A 0]]; ex_final1; L []; L [L [A 2; L []; L []; A 0; ex_obs2]]; L []]%Z.
+Definition ex_obs0 : sx :=
+  L [L []; L []; L []; L [L [A 0]]; L []; L []; L [L [A 11; L []; L []; A 0; ex_obs1]]; L []]%Z.
+
+Lemma ex1_designates : R02Mon.designates [ex_lf1] (0, 64)%Z ex_rec 0 0.
+Proof.
+  exists ex_lf1. eexists. split; [reflexivity|]. split; [vm_compute; reflexivity|].
+  repeat (split; [vm_compute; reflexivity|]).
+  intros z Hz. change (r_off ex_rec) with 0%Z in Hz. change (r_size ex_rec) with 20%Z in Hz.
+  assert (Hc : (z = 0 \/ z = 1 \/ z = 2 \/ z = 3 \/ z = 4 \/ z = 5 \/ z = 6 \/ z = 7 \/ z = 8 \/ z = 9 \/
+                z = 10 \/ z = 11 \/ z = 12 \/ z = 13 \/ z = 14 \/ z = 15 \/ z = 16 \/ z = 17 \/ z = 18 \/ z = 19)%Z) by lia.
+  repeat (destruct Hc as [->|Hc]; [vm_compute; reflexivity|]). subst z. vm_compute. reflexivity.
+Qed.
+
+Lemma ex_ups1 : cs_ups (CrashRepeat.lf_c ex_lf1) = [mkUp 5 0 0 20 20 (UpFin true)].
+Proof. vm_compute. reflexivity. Qed.
+Lemma ex_ups2 : cs_ups (CrashRepeat.lf_c ex_lf2) = [mkUp 6 0 32 8 8 (UpFin true)].
+Proof. vm_compute. reflexivity. Qed.
+Lemma ex_labelled1 : R02Mon.labelled ex_ver [ex_lf1] [L [L [A 1; A 5; A 0]]]%Z.
+Proof.
+  intros j lf k up Hj Hk. destruct j as [|j]; [|destruct j; discriminate]. injection Hj as <-.
+  rewrite ex_ups1 in Hk. destruct k as [|k]; [|destruct k; discriminate]. injection Hk as <-.
+  vm_compute. reflexivity.
+Qed.
+Lemma ex_labelled2 : R02Mon.labelled ex_ver [ex_lf1; ex_lf2] [L [L [A 1; A 6; A 1]]; L [L [A 1; A 5; A 0]]]%Z.
+Proof.
+  intros j lf k up Hj Hk. destruct j as [|[|j]]; [| |destruct j; discriminate]; injection Hj as <-.
+  - rewrite ex_ups1 in Hk. destruct k as [|k]; [|destruct k; discriminate]. injection Hk as <-.
+    vm_compute. reflexivity.
+  - rewrite ex_ups2 in Hk. destruct k as [|k]; [|destruct k; discriminate]. injection Hk as <-.
+    vm_compute. reflexivity.
+Qed.
+
+Ltac ex_probe_misses :=
+  repeat match goal with
+  | |- _ /\ _ => split
+  | |- R02Mon.model_probe_obs _ _ _ _ _ _ => split
+  | |- R02Mon.model_fm_obs _ _ _ _ => apply R02Mon.mfo_missing
+  | |- R02Mon.model_get_obs _ _ _ _ _ _ => apply R02Mon.mgo_miss
+  | |- True => exact I
+  end.
+
+Lemma ex_blk_loc : b_loc ex_blk = (0, 64)%Z.
+Proof. vm_compute. reflexivity. Qed.
+
+Example ex_tree_model : R02Mon.model_tree ex_g ex_ver 0 [] medium_empty [] ex_gen0 ex_obs0.
+Proof.
+  apply R02Mon.mt_node; [reflexivity|intros Hd; exfalso; apply Hd; reflexivity|].
+  constructor; [|constructor].
+  exists ex_lf1. split; [exists ex_tr; vm_compute; reflexivity|]. split; [exact ex_labelled1|].
+  (* life 1: history [ex_lf1], media ex_m1 *)
+  apply R02Mon.mt_node; [reflexivity| |].
+  - intros _. split; [|split; vm_compute; reflexivity].
+    cbn [fst snd ex_obs1 ex_probe ex_miss ex_hit5 sx_nth sx_list nth R02Mon.indexed]. ex_probe_misses.
+    + apply (R02Mon.mfo_present ex_g _ _ 3 ex_rec 0); [exact ex_resolves_after_commit|reflexivity].
+    + apply (R02Mon.mgo_served ex_g ex_ver _ _ _ 3 ex_rec 0 ex_blk 0 0);
+        [exact ex_resolves_after_commit|reflexivity|vm_compute; reflexivity|rewrite ex_blk_loc; exact ex1_designates].
+  - constructor; [|constructor].
+    exists ex_lf2. split; [exists ex_tr2; vm_compute; reflexivity|]. split; [exact ex_labelled2|].
+    (* life 2: history [ex_lf1; ex_lf2], media ex_m2 *)
+    apply R02Mon.mt_node; [reflexivity| |constructor].
+    intros _. split; [|split; vm_compute; reflexivity].
+    cbn [fst snd ex_obs1 ex_obs2 ex_probe ex_miss ex_hit5 sx_nth sx_list nth R02Mon.indexed]. ex_probe_misses.
+    + apply (R02Mon.mfo_present ex_g _ _ 3 ex_rec 0); [exact ex2_old_record_resolves|reflexivity].
+    + apply (R02Mon.mgo_served ex_g ex_ver _ _ _ 3 ex_rec 0 ex_blk 0 0);
+        [exact ex2_old_record_resolves|reflexivity|vm_compute; reflexivity|rewrite ex_blk_loc; exact ex2_designates].
+Qed.
+Example ex_tree_silent : mon_life 6 0 [] ex_gen0 ex_obs0 = [].
+Proof.
+  apply (mon02_silent_on_model_partial ex_g ex_ver); [apply Nat.ltb_lt; vm_compute; reflexivity| |reflexivity|].
+  - repeat (constructor; [cbn [In]; intuition discriminate|]). constructor.
+  - exact ex_tree_model.
+Qed.
+(** the monitor is not silent by construction: the same tree with foreign bytes served for key 5 after
+    the second restart is reported (clause 1) *)
+Definition ex_probe_bad : sx :=
+  L [ex_miss 0; ex_miss 1; ex_miss 2; ex_miss 3; ex_miss 4; L [L [A 0; L []]; L [A 0; L [A 2; A 20; L []]]]; ex_miss 6]%Z.
+Definition ex_obs0_bad : sx :=
+  L [L []; L []; L []; L [L [A 0]]; L []; L [];
+     L [L [A 11; L []; L []; A 0;
+           L [L []; L []; ex_probe; L [L [A 0]]; ex_final1; L [];
+              L [L [A 2; L []; L []; A 0; L [L []; L []; ex_probe_bad; L []; L []; L []; L []; L []]]]; L []]]]; L []]%Z.
+Example ex_tree_wrong_bytes_caught :
+  mon_life 6 0 [] ex_gen0 ex_obs0 = [] /\ mon_life 6 0 [] ex_gen0 ex_obs0_bad = [1%Z].
+Proof. split; vm_compute; reflexivity. Qed.
